@@ -191,7 +191,7 @@ func scnC20(rc *RunCtx) {
 			partial = mkLine(false)
 			cut := 1 + t.Choose(len(partial)-1, "cut")
 			b = append(b, partial[:cut]...)
-			partial = partial[cut:] // what is still missing
+			partial = partial[cut:]     // what is still missing
 			expect = append(expect, "") // placeholder, completed below
 		}
 		mfs.files[live] = b
